@@ -166,10 +166,18 @@ def run_one(mod, cfg, tracer=None):
     return res
 
 
+_SEQ = [0]
+
+
 def _work(chunk):
     out = []
     for idx, cfg in chunk:
-        out.append((idx, run_one(_MOD, cfg, _TRACER)))
+        res = run_one(_MOD, cfg, _TRACER)
+        # which process executed this state, and as its how-manyth: lets the driver rebuild the
+        # exact history of a worker when a violation does not reproduce from a fresh process
+        _SEQ[0] += 1
+        res['_worker'] = (os.getpid(), _SEQ[0])
+        out.append((idx, res))
     hits = sorted(_TRACER.all_hits) if _TRACER is not None else []
     return out, hits
 
@@ -203,15 +211,20 @@ def match_known(known, prop, v):
 # --------------------------------------------------------------------------------------
 # replay
 
-def write_replay(prop, cfg, viol):
+def write_replay(prop, cfg, viol, history=None):
     d = os.path.join(REPLAY_DIR, prop)
     os.makedirs(d, exist_ok=True)
     name = key_hash({'cfg': cfg, 'site': viol['site'], 'symptom': viol['symptom']})
-    path = os.path.join(d, name + '.json')
+    path = os.path.join(d, name + ('-hist' if history else '') + '.json')
+    rec = {'property': prop, 'cfg': cfg, 'violation': viol,
+           'how': './check %s --replay %s' % (prop, path)}
+    if history:
+        rec['history'] = history
+        rec['note'] = ('the violation does not occur when this state is executed first in a fresh '
+                       'process; it needs the states listed under history to be executed before it '
+                       'in the same process (hidden process-global state)')
     with open(path, 'w') as f:
-        json.dump({'property': prop, 'cfg': cfg, 'violation': viol,
-                   'how': './check %s --replay %s' % (prop, path)}, f, indent=1,
-                  sort_keys=True, default=str)
+        json.dump(rec, f, indent=1, sort_keys=True, default=str)
     return path
 
 
@@ -220,6 +233,8 @@ def replay_file(path, as_json=False):
         rec = json.load(f)
     prop = rec['property']
     mod = _load(prop)
+    for h in rec.get('history', []):
+        run_one(mod, h)          # re-create the hidden state the violation depends on
     res = run_one(mod, rec['cfg'])
     if res['error']:
         print(res['error'])
@@ -357,8 +372,34 @@ def explore(prop, tier='quick', seed=0, jobs=None, budget=None, only_site=None):
             for t, r in zip(confirm[:MAXC], ex.map(lambda t: _confirm(prop, t[5]),
                                                    confirm[:MAXC])):
                 conf_res[t[5]] = r
+    # per-worker execution order (index lists), for history replays
+    by_worker = {}
+    for i, r in results.items():
+        w = r.get('_worker')
+        if w:
+            by_worker.setdefault(w[0], []).append((w[1], i))
+    for w in by_worker:
+        by_worker[w].sort()
     for site, sym, lst, cfg, v, path in todo:
         ok, outs = conf_res.get(path, (True, 'not re-executed (more than %d sites)' % MAXC))
+        if not ok and outs and outs[0] == outs[1] and outs[0][0] == 0 and 'finalize' not in cfg:
+            # identical fresh-process runs, both WITHOUT the violation: the result depends on what
+            # the worker executed before.  Replay the worker's history in a fresh process.
+            idx = None
+            for i in sorted(results):
+                if cfgs[i] is cfg:
+                    idx = i
+            w = results[idx].get('_worker') if idx is not None else None
+            if w:
+                hist = [cfgs[j] for (q, j) in by_worker.get(w[0], []) if q < w[1]]
+                hpath = write_replay(prop, cfg, v, history=hist)
+                ok2, outs2 = _confirm(prop, hpath)
+                if ok2:
+                    v = dict(v, symptom=v['symptom'])
+                    path = hpath
+                    ok = True
+                    out_lines.append('  (history-dependent: reproduces only after the %d states the '
+                                     'worker executed before it; replay file contains them)' % len(hist))
         if not ok:
             nondet = True
             out_lines.append('NONDETERMINISM property=%s site=%s symptom=%s replay=%s %r'
